@@ -46,6 +46,8 @@ ASSUMPTIONS = [
     "result_within_float, re-checked with exact rationals on every case",
     "tolerances in [1e-9, 1e-1] as in the property (theorem needs tol/pi >= 2^-247)",
     "NaN and infinities are outside the property (the real code returns [] for them)",
+    "angles of other numeric types (np.float16/32/64, int, np.int32/64, Fraction, bool) are judged on the double they "
+    "denote; returned lists must not be shared between calls (aliasing stream)",
 ]
 
 
